@@ -29,6 +29,9 @@ META = dict(
          "of 2 callers with a fault and a read timeout (thorough: also 4 callers x Max in {2,3}), impatient re-runs of the "
          "late-answer behaviours, and seeded random behaviours of 6 callers x 2 calls x Max in {1,2,5} are replayed on the "
          "real Broker over loopback TCP; "
+         "a write-deadline family (server silent for the first call while no-response acks=0 produce requests keep being "
+         "written every 50 ms, or a second call follows with WriteTimeout 30 s >> ReadTimeout 400 ms) checks that the silent "
+         "call is back within a load-aware 2.5 s bound (read_timeout_honoured); "
          "each request (MetadataRequest, or ListPartitionReassignmentsRequest for the flexible v1 response header) carries a "
          "unique topic name that the server echoes, so responses are attributable; runt / short frames use every length "
          "in {0,1,3,4,5,7,8} with both header versions; panics recovered by PanicHandler are attributed to their connection; the "
@@ -39,8 +42,27 @@ META = dict(
     design_ref="6/C14",
 )
 
-CLAUSES = ["own_response", "mismatch_is_fault", "fail_after_fault", "no_hang", "no_panic", "inflight_bound"]
-GATES = ("write", "ret", "closed")
+CLAUSES = ["own_response", "mismatch_is_fault", "fail_after_fault", "no_hang", "no_panic", "read_timeout_honoured",
+           "inflight_bound"]
+GATES = ("write", "ret", "closed", "fired")
+
+
+def wt_variant(case):
+    """write-deadline family (selected from the behaviours of BrokerConn.genw.cfg): the server never sends
+    anything, the read timeout fires for the first call while (a) no-response sends or (b) a second call
+    have been written after it. Returns "a", "b" or None."""
+    acts = [x["a"] for x in case["steps"]]
+    if "timeout" not in acts or "srv" in acts:
+        return None
+    pre = acts[:acts.index("timeout")]
+    if "write" not in pre:
+        return None
+    w1 = pre.index("write")
+    if "fire" in pre[w1:]:
+        return "a"
+    if pre.count("write") >= 2 and "fire" not in pre:
+        return "b"
+    return None
 
 
 def printed(r, tag):
@@ -67,7 +89,7 @@ def canon(case):
 
 
 def gen_cases(ctx, out):
-    runs = [("BrokerConn.gen.cfg", None, "gen"), ("BrokerConn.gen2.cfg", None, "gen2")]
+    runs = [("BrokerConn.gen.cfg", None, "gen"), ("BrokerConn.gen2.cfg", None, "gen2"), ("BrokerConn.genw.cfg", None, "genw")]
     if ctx.tier == "thorough":
         runs.append(("BrokerConn.gen4.cfg", None, "gen4"))
         runs.append(("BrokerConn.sim.cfg", "num=4000", "sim"))
@@ -82,7 +104,7 @@ def gen_cases(ctx, out):
         if sim:
             results[src] = ctx.tlc("BrokerConn", cfg, workers=1, timeout=900, simulate=sim, depth=400, seed=ctx.seed, name="sim")
         else:
-            results[src] = ctx.tlc("BrokerConn", cfg, workers=2 if src == "gen2" else 8, timeout=1500, name=src)
+            results[src] = ctx.tlc("BrokerConn", cfg, workers=2 if src in ("gen2", "genw") else 8, timeout=1500, name=src)
     ths = [threading.Thread(target=one, args=x) for x in runs]
     for t in ths:
         t.start()
@@ -105,8 +127,21 @@ def gen_cases(ctx, out):
             if key in seen:
                 continue
             seen.add(key)
+            if src == "genw":
+                v = wt_variant(c)
+                if v:
+                    # Net.ReadTimeout 400 ms; (a) WriteTimeout = ReadTimeout, sends without response go on every
+                    # 50 ms until the verdict; (b) WriteTimeout 30 s, second call 100 ms after the first.
+                    # The silent call must be back within 2.5 s (load-aware).
+                    c.update(timed=True, rtms=400, wtms=400 if v == "a" else 30000, boundms=2500)
+                    c["src"] = "wt-" + v
+                elif ctx.tier != "thorough":
+                    continue        # the other behaviours with no-response sends: thorough only
+                else:
+                    c["src"] = src
+            else:
+                c["src"] = src
             c["id"] = len(cases) + 1
-            c["src"] = src
             cases.append(c)
             k += 1
         stats.append({"cfg": cfg, "behaviours_emitted": emitted, "distinct_cases": k,
@@ -168,6 +203,7 @@ def model_runs(ctx, res, which):
         if which == "light":
             res["bound"] = ctx.tlc("BrokerConn", "BrokerConn.bound.cfg", workers=2, timeout=300, name="bound")
             res["live"] = ctx.tlc("BrokerConn", "BrokerConn.live.cfg", workers=4, timeout=900, name="live")
+            res["wt"] = ctx.tlc("BrokerConn", "BrokerConn.wt.cfg", workers=4, timeout=900, name="wt")
         else:
             safety_cfg = "BrokerConn.safety.cfg" if ctx.tier == "thorough" else "BrokerConn.safetyq.cfg"
             res["safety"] = ctx.tlc("BrokerConn", safety_cfg, workers=6 if ctx.tier == "quick" else 12, timeout=1500, name="safety")
@@ -216,8 +252,9 @@ def run(ctx):
         raise mres["exc"]
     safety = ctx.need(mres["safety"], "model safety")
     live = ctx.need(mres["live"], "model liveness")
+    wtm = ctx.need(mres["wt"], "model with no-response sends (safety + liveness)")
     bound = ctx.need(mres["bound"], "model in-flight bound (expected to fail)", allow_violation=True)
-    if not safety.finished or not live.finished:
+    if not safety.finished or not live.finished or not wtm.finished:
         raise vlib.Inconclusive("exhaustive model run did not complete")
 
     allv, feats = [], {}
@@ -262,8 +299,8 @@ def run(ctx):
     for v in viols:
         per_clause[v["clause"]] = per_clause.get(v["clause"], 0) + 1
     cov = {
-        "states": safety.distinct + live.distinct + bound.distinct + sum(g["states"] for g in gstats if g["exhaustive"]),
-        "transitions": safety.generated + live.generated + bound.generated + sum(g["generated"] for g in gstats if g["exhaustive"]),
+        "states": safety.distinct + live.distinct + wtm.distinct + bound.distinct + sum(g["states"] for g in gstats if g["exhaustive"]),
+        "transitions": safety.generated + live.generated + wtm.generated + bound.generated + sum(g["generated"] for g in gstats if g["exhaustive"]),
         "traces_validated_against_impl": tstats["traces"],
         "samples": summary.get("samples", [])[:2],
         "exhaustive": True,
@@ -273,6 +310,8 @@ def run(ctx):
                        "invariants": ["TypeOK", "OwnResponseOrError", "MismatchNeverDelivered", "AfterFaultAllFail",
                                       "InFlightPlus1", "ServerCountSound", "DeadIsSticky"]},
             "liveness": {"distinct_states": live.distinct, "properties": ["EveryCallReturns", "CloseReturns"]},
+            "no_response_sends": {"distinct_states": wtm.distinct,
+                                  "properties": ["safety invariants", "EveryCallReturns", "CloseReturns", "FireReturns"]},
             "property_bound_InFlight<=Max_on_model": "violated as expected (write precedes promise enqueue)"
             if bound.violated == "InFlightBound" else "holds on the model",
         },
@@ -304,6 +343,9 @@ def run(ctx):
                         "srv_send is recorded before the bytes are written, srv_recv / call_ret after the fact",
                         "inflight_bound counts, at the arrival of a request, the requests received and not yet answered whose calls "
                         "later returned their response (a lower bound of the true number on the wire)",
+                        "read_timeout_honoured: the 2.5 s bound (ReadTimeout 400 ms) expires only when wall clock AND the test process's own "
+                        "5 ms heartbeat (>= 60 % of nominal) agree; a starved process yields no verdict for that behaviour; the premise "
+                        "(request received, nothing sent by the server, call not returned) is evaluated by the trace spec",
                         "one connection per behaviour, no re-Open after Close, every request expects a response, SASL/TLS off",
                         "bounded model: <=4 callers, <=2 calls each, Max<=3 exhaustively; 6 callers x 2 calls x Max in {1,2,5} by seeded simulation",
                         "watchdog %s ms per behaviour for no_hang (Net.ReadTimeout 60 ms where silence is scripted)" % os.environ.get("VERIF_BC_HANG_MS", "4000")],
